@@ -85,12 +85,16 @@ func GenPkt4(t *rapid.T) Pkt4 {
 		p.SName = rapid.SampledFrom([]string{"srv", string(make([]byte, 64)), "0123456789012345678901234567890123456789012345678901234567890123"}).Draw(t, "sname")
 	}
 	// options
-	mt := rapid.IntRange(0, 12).Draw(t, "msgtype-kind")
+	mt := rapid.IntRange(0, 13).Draw(t, "msgtype-kind")
 	switch {
 	case mt <= 4:
 		p.Opts = append(p.Opts, Opt4{53, "01"})
 	case mt <= 8:
 		p.Opts = append(p.Opts, Opt4{53, "03"})
+	case mt == 13:
+		// the other message types clients (and servers) really send: DECLINE, RELEASE, INFORM, OFFER, ACK, NAK,
+		// FORCERENEW, LEASEQUERY, ...
+		p.Opts = append(p.Opts, Opt4{53, H([]byte{rapid.SampledFrom([]byte{8, 8, 7, 4, 2, 5, 6, 9, 10, 13, 0}).Draw(t, "msgtype-real")})})
 	case mt == 9:
 		p.Opts = append(p.Opts, Opt4{53, H([]byte{rapid.Byte().Draw(t, "msgtype")})})
 	case mt == 10:
